@@ -10,6 +10,7 @@ package main
 // composition MODEL for GSM 7-bit texts).  Theorems: C10_compose_then_combine…
 
 import (
+	"bytes"
 	"fmt"
 	"strings"
 
@@ -21,6 +22,24 @@ func wrapPart(src, dst pdu.Address, m pdu.ShortMessage) *pdu.DeliverSM {
 	p := &pdu.DeliverSM{SourceAddr: src, DestAddr: dst, Message: m}
 	p.ESMClass.UDHIndicator = m.UDHeader != nil
 	return p
+}
+
+// overWire sends the PDU through pdu.Marshal and pdu.ReadPDU: what the combiner of a receiving
+// application is fed is the DECODED value (compose -> Marshal -> ReadPDU -> combine).
+func overWire(p *pdu.DeliverSM) (*pdu.DeliverSM, error) {
+	var buf bytes.Buffer
+	if _, err := pdu.Marshal(&buf, p); err != nil {
+		return nil, err
+	}
+	q, err := pdu.ReadPDU(&buf)
+	if err != nil {
+		return nil, err
+	}
+	d, ok := q.(*pdu.DeliverSM)
+	if !ok {
+		return nil, fmt.Errorf("ReadPDU returned %T", q)
+	}
+	return d, nil
 }
 
 func segOfPDU(p *pdu.DeliverSM) segVal {
@@ -77,7 +96,8 @@ func c10EndToEnd(r *Run) {
 			r.Count(fmt.Sprintf("e2e/refused/%d", i), false, "end-to-end/compose refused")
 			continue
 		}
-		in := fmt.Sprintf("e2e coding=%d ref=%d dst=%s text=%q", byte(dc), ref, dst.No, text)
+		wire := i%2 == 1 // every second history: each PDU goes through Marshal and ReadPDU before it reaches the combiner
+		in := fmt.Sprintf("e2e coding=%d ref=%d dst=%s wire=%v text=%q", byte(dc), ref, dst.No, wire, text)
 		var ps []*pdu.DeliverSM
 		ours := map[*pdu.DeliverSM]int{} // pointer -> part number (from 1)
 		for j, m := range parts {
@@ -114,6 +134,26 @@ func c10EndToEnd(r *Run) {
 		}
 		for c := r.Rng.Intn(3); c > 0; c-- {
 			ps = append(ps, segVal{src, dst, nil}.build(), segVal{src, dst, map[byte][]byte{0x24: {1}}}.build())
+		}
+		if wire {
+			wireErr := error(nil)
+			for j, p := range ps {
+				p.Header.Sequence = int32(j + 1)
+				d, err := overWire(p)
+				if err != nil {
+					wireErr = err
+					break
+				}
+				if k, ok := ours[p]; ok {
+					delete(ours, p)
+					ours[d] = k
+				}
+				ps[j] = d
+			}
+			if wireErr != nil {
+				r.Fail("e2e/wire-refused", "a composed part wrapped into a deliver_sm did not survive Marshal and ReadPDU", in, wireErr.Error(), "the decoded deliver_sm")
+				continue
+			}
 		}
 		// any order (now and then in order, or reversed)
 		order := r.Rng.perm(len(ps))
@@ -153,6 +193,9 @@ func c10EndToEnd(r *Run) {
 			}
 		}
 		bucket := fmt.Sprintf("end-to-end/coding=%d/parts=%s", byte(dc), bucketN(nOurs))
+		if wire {
+			bucket = "end-to-end over the wire (Marshal, ReadPDU)/parts=" + bucketN(nOurs)
+		}
 		r.Count(fmt.Sprintf("e2e/%d/%d/%s", byte(dc), ref, text), nOurs > 1, bucket)
 		if panicked {
 			continue
@@ -226,7 +269,10 @@ func c10EndToEnd(r *Run) {
 		}
 		obs := c10One(r, table, tableKey(table), order, "", nil, false)
 		referenceCases(r, table, order, obs)
-		if dc == coding.GSM7BitCoding && obs.PanicAt < 0 && len(ps) <= 60 {
+		_, _, _, _, jinfo := judgeFull(table, order, obs)
+		// (a history that holds malformed other traffic is compared leniently by referenceCases; the exact trace from the
+		// composition model is demanded where every segment is well formed)
+		if dc == coding.GSM7BitCoding && obs.PanicAt < 0 && len(ps) <= 60 && !jinfo.lenient {
 			others := make([]string, 0, len(ps)-nOurs)
 			for _, s := range table[nOurs:] {
 				others = append(others, coqSeg(s))
